@@ -13,7 +13,7 @@ Functions modelled (src/pyramid/…)
 * `mkOverride`, `insert`                       config/assets.py 111-117 `PackageOverrides.insert`
 * `Override.apply`                             183-202 `DirectoryOverride.__call__`, `FileOverride.__call__`
 * `filteredSources`                            119-123
-* `Source.loc`                                 223-224 `PackageAssetSource.get_path`, 266-271 `FSAssetSource.get_path`
+* `Source.loc`, `lstripSlash`                  223-224 `PackageAssetSource.get_path`, 266-274 `FSAssetSource.get_path` (as repaired by 3e07f6a)
 * `Source.exists … Source.listdir`             226-254 / 273-302, the six methods of both source classes
 * `firstResult`, `PO.getFilename … PO.listdir` 125-158, the six loops of `PackageOverrides`
 * `Prov.filename … Prov.listdir`               22-84, `OverrideProvider` falling back on `pkg_resources.DefaultProvider`
@@ -135,10 +135,19 @@ inductive Source where
   | fs (pfx : Text)             -- `FSAssetSource(prefix)`
   deriving DecidableEq, Repr
 
-/-- `get_path` of either class, as the place that is then examined -/
+/-- `s.lstrip('/')` -/
+def lstripSlash : Text → Text
+  | [] => []
+  | c :: cs => if c = '/' then lstripSlash cs else c :: cs
+
+/-- `get_path` of either class, as the place that is then examined; since fix 3e07f6a the filesystem source strips the
+leading slashes of the resource name before `os.path.join` -/
 def Source.loc : Source → Text → Loc
   | .pkg n p, r => .inPkg n (p ++ r)
-  | .fs p, r => .onFs (if r = [] then p else joinPath p r)
+  | .fs p, r => .onFs (if r = [] then p else joinPath p (lstripSlash r))
+
+/-- `FSAssetSource.get_path` BEFORE fix 3e07f6a (kept for the regression fact of Props/X04.lean) -/
+def fsLocOld (p r : Text) : Loc := .onFs (if r = [] then p else joinPath p r)
 
 inductive Err where
   | isDir      -- IsADirectoryError
